@@ -186,6 +186,55 @@ fn fresh_blocker(e: &'static Engine, workers: usize, timeout_ns: u64, ignore_can
     e.note(out);
 }
 
+/// the parker is detached: the only handle is the one the waker uses, and it is dropped right after the wake-up
+/// (`cancel`: the wake-up is a cancel). If the wake-up lands between the parker's look at its token and its registration,
+/// the worker resumes the coroutine inline, it runs to its end, and its stack, its Park included, is destroyed right
+/// there. The worker must survive that: a second coroutine is run afterwards.
+pub fn detached_parker(e: &'static Engine, workers: usize, cancel: bool, parks: usize) {
+    use std::sync::atomic::AtomicBool;
+    rt_init(workers);
+    static READY: AtomicBool = AtomicBool::new(false);
+    static DONE: AtomicBool = AtomicBool::new(false);
+    struct SetOnDrop;
+    impl Drop for SetOnDrop {
+        fn drop(&mut self) {
+            DONE.store(true, Ordering::SeqCst);
+        }
+    }
+    e.begin();
+    let h = go!(move || {
+        let _d = SetOnDrop;
+        READY.store(true, Ordering::SeqCst);
+        for _ in 0..parks {
+            coroutine::park();
+        }
+    });
+    let co = h.coroutine().clone();
+    drop(h);
+    e.wait_flag(&READY);
+    for _ in 0..parks {
+        if cancel {
+            unsafe { co.cancel() };
+            break;
+        }
+        co.unpark();
+        if parks > 1 {
+            e.quiesce();
+        }
+    }
+    drop(co);
+    e.wait_flag(&DONE);
+    // every worker is still able to run coroutines
+    let hs: Vec<_> = (0..workers + 1).map(|i| go!(move || i)).collect();
+    for (i, h) in hs.into_iter().enumerate() {
+        if h.join().ok() != Some(i) {
+            e.fail("worker_lost", "a coroutine spawned after the detached parker finished did not run");
+        }
+    }
+    e.quiesce();
+    e.note(if cancel { "cancelled" } else { "unparked" });
+}
+
 fn sc(name: String, f: impl Fn(&'static Engine) + Send + Sync + 'static) -> Scenario {
     Scenario::new("C02", "park", name, Arc::new(f))
 }
@@ -207,6 +256,10 @@ pub fn build(quick: bool) -> Vec<Scenario> {
         v.push(sc(format!("co.park.k3.w{}.parked_first", w), move |e| co_park(e, w, 3, 0, false, true)).bound(d).deepen(dmax, budget));
         v.push(sc(format!("co.park.k2.w{}.co_unparker", w), move |e| co_park(e, w, 2, 0, true, false)).bound(d).deepen(dmax, budget));
         v.push(sc(format!("co.park_timeout10.k2.w{}", w), move |e| co_park(e, w, 2, 10, false, false)).t2().bound(d).deepen(dmax, budget));
+    }
+    for w in [1usize, 2] {
+        v.push(sc(format!("co.park.detached.w{}", w), move |e| detached_parker(e, w, false, 1)).bound(d));
+        v.push(sc(format!("co.park.detached.twice.w{}", w), move |e| detached_parker(e, w, false, 2)).bound(d));
     }
     if !quick {
         v.push(sc("co.park.k3.w2".into(), move |e| co_park(e, 2, 3, 0, false, false)).bound(2).deepen(3, budget));
